@@ -153,11 +153,11 @@ func clip(b []byte, n int) string {
 }
 
 // checkRapid is ev.Check for a property with several legs of different case types: known
-// witnesses are replayed only when they decode into a case this leg owns.
+// witnesses are not replayed here (another leg replays the witnesses of all legs).
 //
 // prop0 decides campaign cases (it may skip failures of known classes that the generator
 // could not avoid by construction); strict decides replayed cases and never skips.
-func checkRapid[C any](t *testing.T, c *ev.Collector, checks int, gen func(*rapid.T) C, prop0, strict func(C) (ev.Outcome, error), mine func(C) bool) {
+func checkRapid[C any](t *testing.T, c *ev.Collector, checks int, gen func(*rapid.T) C, prop0, strict func(C) (ev.Outcome, error)) {
 	t.Helper()
 	prop := ev.Safe(prop0)
 	completed := false
@@ -167,24 +167,6 @@ func checkRapid[C any](t *testing.T, c *ev.Collector, checks int, gen func(*rapi
 		return
 	}
 	c.SetLeg(t.Name())
-	for _, k := range c.KnownList() {
-		if k.Witness == "" {
-			continue
-		}
-		root := os.Getenv("VERIF_ROOT")
-		if root == "" {
-			root = "/verif"
-		}
-		var cs C
-		if err := ev.ReplayCase(filepath.Join(root, k.Witness), &cs); err != nil || !mine(cs) {
-			continue
-		}
-		if _, err := ev.Safe(strict)(cs); err != nil {
-			fmt.Printf("KNOWN-FINDING: property=%s %s\n", k.Property, k.What)
-		} else {
-			c.Note("known finding %s: witness no longer fails", k.Class)
-		}
-	}
 	_ = flag.Set("rapid.checks", strconv.Itoa(checks))
 	_ = flag.Set("rapid.seed", strconv.FormatUint(ev.Seed(), 10))
 	_ = flag.Set("rapid.nofailfile", "true")
